@@ -103,6 +103,12 @@ def make_scenario(conv, k, variant=None):
     if k is not None:
         sc['server']['conns'][conv['fault_conn']]['cut'] = k
     if variant:
+        variant = dict(variant)
+        mode = variant.pop('cut_mode', None)
+        if mode:
+            # abortive close (RST) instead of FIN at the crash point
+            sc['server']['conns'][conv['fault_conn']]['cut_mode'] = mode
+            sc['cut_mode'] = mode
         sc['net'].update(variant)
     return sc
 
@@ -140,13 +146,15 @@ def scenario_for(seed, index, tier):
     variant = None
     if rnd == 1:
         variant = {'one_byte_reads': True}
+    elif rnd == 3:
+        variant = {'cut_mode': 'rst'}
     elif rnd >= 2:
         variant = {'segment': True, 'short_read': True}
     sc = make_scenario(conv, k, variant)
     sc['frames'] = info[conv['name']]['frames']
     sc['n'] = info[conv['name']]['n']
     sc['round'] = rnd
-    if rnd >= 3:
+    if rnd == 2:
         sc['sched']['granularity'] = 'line'
     return sc
 
@@ -257,6 +265,22 @@ def check(scenario, w, st, res):
     if len(delivered) > len(complete):
         V.append(('C15/incomplete-packet-delivered',
                   {'delivered': len(delivered), 'complete': len(complete)}))
+    if scenario.get('cut_mode') == 'rst':
+        # an abortive close also discards what the client had not read yet:
+        # only liveness (above), the safety clause (above) and "not silent"
+        # are decided
+        ob()
+        names = [p[2] for p in st['pkts']]
+        ended = 'disconnect' in names or (
+            scenario['call'] == 'status' and
+            ('ping' in names or ('response' in names and
+                                 not scenario['ping'])))
+        if not errs and not ended and not (
+                len(apps) >= 2 and apps[1].handshake is not None):
+            V.append(('C15/silent-exit:rst', {'cut': k}))
+        res.probes['cut-by-rst'] = 1
+        res.state_sigs = [(scenario['conv'], k, 'rst')]
+        return
     # classification
     status_phase = scenario['call'] == 'connect' and \
         scenario['allowed'] is not None and len(scenario['allowed']) > 1 \
